@@ -857,6 +857,7 @@ def disc_oracle(script, out, stats=None):
     nxt = 0
     iteration = 1
     bf = 0.8 if control else 0.9
+    nan_seen = False
     meta = {}          # coordinate -> dict(cov, sel, iter) expected for the cell currently at that coordinate
     prev = None
     for i, line in enumerate(script[1:]):
@@ -969,7 +970,7 @@ def disc_oracle(script, out, stats=None):
                                    "queue %s, it returned a motion of cell %s" % (u, bf, frac, "external" if (pool is prev["E"]) else "internal",
                                                                                    pool, sid))
                     for c in pool:
-                        if pc[c]["imp"] > pc[sid[0]]["imp"]:
+                        if not nan_seen and pc[c]["imp"] > pc[sid[0]]["imp"]:    # (see `nan_seen` below: heaps after a NaN key)
                             return (i, "selectMotion took cell %d (importance %g) although cell %d of the same queue has importance %g"
                                     % (sid[0], pc[sid[0]]["imp"], c, pc[c]["imp"]))
                     bumped = pc[sid[0]]["score"] < EPS
@@ -1035,9 +1036,19 @@ def disc_oracle(script, out, stats=None):
         for cid in I:
             if D["cells"][cid]["border"]:
                 return (i, "border cell %d sits in the internal queue" % cid)
+        # a NaN importance (score 0 over coverage 0: only the control variant can have coverage 0, by a start motion with
+        # steps = 0) makes OrderCellsByImportance no strict weak order: from the first dump that shows one until the next
+        # `clear` the heaps may be out of order and "the top is the best" is not demanded (the lock-step still compares
+        # every heap layout bit for bit).  Nothing else is switched off.
+        if t[0] == "clear":
+            nan_seen = False
+        if any(c["imp"] != c["imp"] for c in D["cells"].values()):
+            nan_seen = True
+            if stats is not None:
+                stats["disc:dumps-with-nan-importance"] += 1
         for name, arr in (("internal", I), ("external", E)):
             for cid in arr:
-                if D["cells"][cid]["imp"] > D["cells"][arr[0]]["imp"]:
+                if not nan_seen and D["cells"][cid]["imp"] > D["cells"][arr[0]]["imp"]:
                     return (i, "%s queue: cell %d (importance %g) is at the top although cell %d (importance %g) is better"
                             % (name, arr[0], D["cells"][arr[0]]["imp"], cid, D["cells"][cid]["imp"]))
         if dim >= 1 and D["cells"] and not E:
@@ -2784,7 +2795,8 @@ def replay(ck, data):
         print("no failure on the current tree")
         return 0
     if data["script"][0].startswith("disc"):
-        hbin = build_disc(ck)
+        # the control variant is served by the harness around the real control::KPIECE1
+        hbin = build_ckpiece(ck) if data["script"][0].endswith("variant=control") else build_disc(ck)
         ck.lean_build([DISC_DRIVER])
         script = data["script"]
         impl, rc, err, model = run_disc(ck, hbin, script)
